@@ -995,4 +995,42 @@ theorem tick_next (iv : Interval) (now : Nat) (hf : iv.firstTicked = true) (hp :
   generalize (now - iv.start) % iv.period = r at *
   omega
 
+/-! ## `tick` as a coroutine: the four facts that depend on the extracted statement order -/
+
+/-- in the first branch nothing is written to `self` before the await … -/
+theorem tickBegin_first (iv : Interval) (now : Nat) (h : iv.firstTicked = false) :
+    iv.tickBegin now = some (iv, .first, iv.start) := by
+  simp [Interval.tickBegin, h, stmtsBeforeAwait, Compio.Gen.IntervalTick.firstBranch,
+    Interval.applyStmts]
+
+/-- … `first_ticked` is set after it -/
+theorem tickEnd_first (iv : Interval) :
+    iv.tickEnd .first = ({ iv with firstTicked := true }, iv.start) := by
+  simp [Interval.tickEnd, stmtsAfterAwait, Compio.Gen.IntervalTick.firstBranch, Interval.applyStmts]
+
+/-- the periodic branch never writes to `self` -/
+theorem tickBegin_periodic (iv : Interval) (now : Nat) (h : iv.firstTicked = true) :
+    iv.tickBegin now =
+      match iv.tickDeadline now with
+      | .panic => none
+      | .deadline d => some (iv, .periodic d, d) := by
+  simp only [Interval.tickBegin, h, Bool.not_true, Bool.false_eq_true, if_false]
+  cases iv.tickDeadline now <;>
+    simp [stmtsBeforeAwait, Compio.Gen.IntervalTick.periodicBranch, Interval.applyStmts]
+
+theorem tickEnd_periodic (iv : Interval) (d : Nat) : iv.tickEnd (.periodic d) = (iv, d) := by
+  simp [Interval.tickEnd, stmtsAfterAwait, Compio.Gen.IntervalTick.periodicBranch, Interval.applyStmts]
+
+/-- a periodic deadline that was computed (no panic) is the aligned one -/
+theorem tick_deadline_aligned (iv : Interval) (now d : Nat) (hf : iv.firstTicked = true)
+    (hp : 0 < iv.period) (hp64 : iv.period ≤ 2 ^ 64) (hs : iv.start ≤ now)
+    (h : iv.tickDeadline now = .deadline d) :
+    d = iv.start + ((now - iv.start) / iv.period + 1) * iv.period := by
+  by_cases hmax : now + iv.period ≤ instMax
+  · rw [tick_next iv now hf hp hp64 hs hmax] at h
+    exact (TickRes.deadline.inj h).symm
+  · have hp0 : iv.period ≠ 0 := by omega
+    have : now + iv.period > instMax := by omega
+    simp [Interval.tickDeadline, hf, hp0, this] at h
+
 end Compio.Timer
